@@ -888,7 +888,7 @@ Definition borrow_exit (s : nat) (exc : option exn) : prog :=
     let p := match r_parent (get_res o s) with Some p => p | None => 0 end in
     let d := res_debit o s in
     match exc with
-    | Some EGenExit => release_nowait s d
+    | Some EGenExit | Some (ESig _) => release_nowait s d      (* forceful close or interrupt (fix D20): no suspension *)
     | _ => Catch (res_remove s d) (fun e => release_nowait s 0%Z ;;; Raise e) ;;; res_insert p d
     end).
 
